@@ -436,8 +436,10 @@ def write_geom(m, dirpath, fmt="tri", style="1.1", rng=None, stem="model", token
     g = os.path.join(dirpath, stem + ".geom")
     L = []
     def cm():
-        if T.get("comments") and rng is not None and rng.random() < 0.5:
-            L.append(rng.choice(["# a comment", "", "#", "   # indented comment", "#Mesh x: \"nothing\""]))
+        # blocks of comment lines, blank lines and indented comments in any succession (skip_comments must take them all)
+        if T.get("comments") and rng is not None and rng.random() < 0.6:
+            for _ in range(rng.randint(1, 4)):
+                L.append(rng.choice(["# a comment", "", "#", "   # indented comment", "#Mesh x: \"nothing\"", "\t# tab", "  "]))
     L.append("# Domain Description %s" % T["version"]); cm()
     if T["version"] == "1.0":
         L.append(""); L.append("Interfaces %d Mesh" % len(T["meshes"])); L.append("")
@@ -515,7 +517,9 @@ def write_cond(m, dirpath, rng=None, stem="model", extra=None, header=True):
     for it in lines:
         if it[0] == "c":
             L.append(rng.choice(["# comment", "#" + (items[0][1] if items else "x") + " 5.0", "   # spaces before", "#", "# Air 3"]) if rng is not None else "# c")
-            if rng is not None and rng.random() < 0.3: L.append(rng.choice(["", "\t", "  "]))
+            if rng is not None:
+                # ... possibly followed by blank lines and further (indented) comments: still one comment block
+                for _ in range(rng.randint(0, 3)): L.append(rng.choice(["", "\t", "  ", "# more", "    # indented", "#"]))
         else:
             sep = rng.choice([" ", "\t", "   "]) if rng is not None else " "
             L.append("%s%s%s" % (it[1], sep, _f(it[2])))
